@@ -47,6 +47,13 @@ int main(int argc, char **argv)
 				emit(s, n);
 			}
 		}
+	} else if (!strcmp(argv[1], "list")) {
+		/* the strings given on the command line */
+		for (int a = 2; a < argc; ++a) {
+			int n = (int)strlen(argv[a]);
+			memcpy(s, argv[a], n);
+			emit(s, n);
+		}
 	} else {
 		unsigned long long st = strtoull(argv[2], NULL, 10) * 2654435761ULL + 99;
 		int count = atoi(argv[3]), maxlen = atoi(argv[4]);
